@@ -625,10 +625,11 @@ func runFree(c *c08Case) (feat map[string]bool, fail *kvh.Fail) {
 	close(start)
 	done := make(chan struct{})
 	go func() { wg.Wait(); close(done) }()
-	select {
-	case <-done:
-	case <-time.After(120 * time.Second):
-		return feat, deadlockOrTimeout("free-running clients did not finish within 120 s")
+	if verdict, dump := waitOrDeadlock(done, "runFree.func"); verdict != "done" {
+		if verdict == "deadlock" {
+			return feat, &kvh.Fail{Sig: "deadlock", Msg: "all client goroutines are parked in lock/channel waits and nothing changed between two inspections 10 s apart\n" + dump[:min(len(dump), 7000)]}
+		}
+		return feat, &kvh.Fail{Sig: "harness-timeout", Msg: "free-running clients did not finish within 300 s\n" + dump[:min(len(dump), 4000)]}
 	}
 	if p := panicked.Load(); p != nil {
 		return feat, &kvh.Fail{Sig: "panic-under-concurrency", Msg: p.(string)}
@@ -727,4 +728,52 @@ func init() {
 		}
 		return nil
 	}
+}
+
+// waitOrDeadlock waits for done. Every 10 s it inspects the goroutines whose stack contains marker:
+// if all of them are parked in sync lock / channel waits, none is runnable, and the picture is the same at
+// two consecutive inspections, the verdict is "deadlock" (state based, not time based). After 300 s the
+// verdict is "timeout" (inconclusive).
+func waitOrDeadlock(done <-chan struct{}, marker string) (verdict string, dump string) {
+	prev := ""
+	for i := 0; i < 30; i++ {
+		select {
+		case <-done:
+			return "done", ""
+		case <-time.After(10 * time.Second):
+		}
+		buf := make([]byte, 4<<20)
+		n := runtime.Stack(buf, true)
+		dump = string(buf[:n])
+		stuck, other := 0, 0
+		var sig []string
+		for _, g := range strings.Split(dump, "\n\n") {
+			if !strings.Contains(g, marker) {
+				continue
+			}
+			head := g
+			if k := strings.IndexByte(g, '\n'); k >= 0 {
+				head = g[:k]
+			}
+			if strings.Contains(head, "[semacquire") || strings.Contains(head, "[sync.") || strings.Contains(head, "[chan ") || strings.Contains(head, "[select") {
+				stuck++
+				// goroutine id + frames without the minutes counter
+				if k := strings.IndexByte(head, '['); k >= 0 {
+					sig = append(sig, head[:k]+g[len(head):])
+				}
+			} else {
+				other++
+			}
+		}
+		cur := strings.Join(sig, "|")
+		if stuck > 0 && other == 0 {
+			if cur == prev {
+				return "deadlock", dump
+			}
+			prev = cur
+		} else {
+			prev = ""
+		}
+	}
+	return "timeout", dump
 }
